@@ -63,7 +63,7 @@ def diag_entries(solver):
 class Sweep:
     """one smoother class on one Setting: builds the object, extracts A_sc, interprets one sweep"""
 
-    def __init__(self, S, cls, base, sweep_fn, threads=2, extrapolated=False):
+    def __init__(self, S, cls, base, sweep_fn, threads=2, extrapolated=False, flags=(True, True)):
         prog = S.prog
         self.S = S
         self.cls = cls
@@ -72,7 +72,7 @@ class Sweep:
         S.dom.threads = threads
         n_reg0 = len(S.dom.regions)
         n_oob0 = len(S.dom.oob)
-        self.obj = opsdom.build_without_body(prog, S.dom, cls, base, [Cell(S.grid), Cell(S.cache(True, True)), Cell(S.geom), Cell(S.coef), S.dirbc, threads])
+        self.obj = opsdom.build_without_body(prog, S.dom, cls, base, [Cell(S.grid), Cell(S.cache(*flags)), Cell(S.geom), Cell(S.coef), S.dirbc, threads])
         S.it.call_function(prog.fn(cls + "::buildAscMatrices"), self.obj, [])
         self.build_regions = S.dom.regions[n_reg0:]
         self.extrapolated = extrapolated
